@@ -26,6 +26,7 @@ RULE = (
     'Distinct = distinct SHA-1 of the recipe JSON.'
 )
 RULE += (' ' + 'Rounds 3-5: **kwargs callables with a rejected update_callable in their history; constant tuples referenced twice (same tuple object => same built object); a node type registered after a build already saw it unregistered.')
+RULE += (' ' + 'Round 7: NaN leaves (a Buildable holding one is not equal to itself, yet it is one instance).')
 RULE += (' ' + 'Round 6: chains of 60-420 levels (around and beyond the recursion budget) placed after other nodes: whether fdl.build returns or raises RecursionError, no instance is invoked twice in that one call.')
 ASSUMPTIONS = [
     'reference evaluator refmodel.ref_build (identity memo, pins keys)',
@@ -47,7 +48,7 @@ def strategy_(draw, tier):
   mode = draw(st.sampled_from(['dag', 'dag', 'dag', 'boxes', 'chain'] if tier == 'thorough'
                                else ['dag', 'dag', 'dag', 'boxes', 'boxes', 'chain']))
   if mode == 'dag':
-    recipe = draw(dags.dag(max_nodes=14, kinds=['B', 'B', 'B', 'list', 'list', 'tuple', 'dict', 'nt', 'box', 'TV', 'ltuple'],
+    recipe = draw(dags.dag(max_nodes=14, leaf_profile='plain_nan', kinds=['B', 'B', 'B', 'list', 'list', 'tuple', 'dict', 'nt', 'box', 'TV', 'ltuple'],
                            fns=['things:f2', 'things:h1', 'things:Base', 'things:LeafCls', 'things:Other', 'things:kwf']))
     for nd in recipe['nodes']:
       if nd['k'] == 'B' and nd['fn'].get('name') == 'things:kwf' and draw(st.booleans()):
